@@ -363,12 +363,16 @@ def id_list(draw, existing, unknown_pool, faults, min_size=1, max_size=4, degene
 
 @st.composite
 def message(draw, state, ro_id, kinds=B.ALL_KINDS, faults='some', rich=True, mid=None,
-            degenerate=False, dup_inserts=True, timing_mode='any'):
+            degenerate=False, dup_inserts=True, timing_mode='any', stale_s=(), stale_i=()):
     """Draw one schema-shaped message against `state` [(sid, [iids])].
     -> (kind_label, msg_xml)"""
     kind = draw(st.sampled_from(list(kinds)))
     sids = [s for s, _ in state]
     used_i = {i for _, its in state for i in its}
+    # "unknown" references: never-used IDs and, in histories, IDs that existed earlier
+    # and have since been deleted or replaced (stale references)
+    UNKNOWN_S = list(globals()['UNKNOWN_S']) + [x for x in stale_s if x not in sids and x is not None][-4:]
+    UNKNOWN_I = list(globals()['UNKNOWN_I']) + [x for x in stale_i if x is not None][-4:]
     new_s = [x for x in NEW_S + SIMPLE_S if x not in sids]
     new_i = [x for x in NEW_I + SIMPLE_I if x not in used_i]
     # long histories can use up the pools: always keep a few unused IDs available
@@ -406,8 +410,8 @@ def message(draw, state, ro_id, kinds=B.ALL_KINDS, faults='some', rich=True, mid
         tgt = sref()
         ns = new_stories()
         if isinstance(tgt, str) and tgt and draw(st.booleans()):
-            # same-ID replacement (a new version of the story)
-            B_id = ns[0].find('storyID')
+            # same-ID replacement (a new version of the story), at any position of the payload
+            B_id = ns[draw(st.integers(0, len(ns) - 1))].find('storyID')
             B_id.text = tgt
         body = B.story_replace(ro_id, tgt, ns)
     elif kind == 'roStoryMove':
@@ -449,7 +453,11 @@ def message(draw, state, ro_id, kinds=B.ALL_KINDS, faults='some', rich=True, mid
         body = B.item_insert(ro_id, s, ref, new_items())
     elif kind == 'roItemReplace':
         s, its = story_and_items()
-        body = B.item_replace(ro_id, s, draw(one_ref(its, UNKNOWN_I, faults)), new_items())
+        r = draw(one_ref(its, UNKNOWN_I, faults))
+        ni = new_items()
+        if isinstance(r, str) and r and draw(st.booleans()):
+            ni[draw(st.integers(0, len(ni) - 1))].find('itemID').text = r      # new version, same ID
+        body = B.item_replace(ro_id, s, r, ni)
     elif kind == 'roItemMoveMultiple':
         s, its = story_and_items()
         srcs = draw(id_list(its, UNKNOWN_I, faults, min_size=0 if not its else 1,
@@ -472,6 +480,8 @@ def message(draw, state, ro_id, kinds=B.ALL_KINDS, faults='some', rich=True, mid
         from xml.etree import ElementTree as ET
         rc = ET.fromstring(inner['ro_xml']).find('roCreate')
         rc.tag = 'roReplace'
+        if rich and draw(st.integers(0, 2)) == 0:
+            rc.attrib['version'] = draw(st.sampled_from(TEXT_POOL)) or 'v'
         body = rc
     elif kind == 'roReadyToAir':
         body = B.ready_to_air(ro_id)
@@ -479,11 +489,17 @@ def message(draw, state, ro_id, kinds=B.ALL_KINDS, faults='some', rich=True, mid
         body = B.ro_delete(ro_id, draw(st.lists(generic(depth=1), max_size=1)) if rich else ())
     elif kind == 'EAStoryReplace':
         tgt = sref()
-        body = B.ea_story_replace(ro_id, tgt if tgt is not None else '', new_stories())
+        ns = new_stories()
+        if isinstance(tgt, str) and tgt and draw(st.booleans()):
+            ns[draw(st.integers(0, len(ns) - 1))].find('storyID').text = tgt    # new version, same ID
+        body = B.ea_story_replace(ro_id, tgt if tgt is not None else '', ns)
     elif kind == 'EAItemReplace':
         s, its = story_and_items()
         r = draw(one_ref(its, UNKNOWN_I, faults))
-        body = B.ea_item_replace(ro_id, s, r if r is not None else '', new_items())
+        ni = new_items()
+        if isinstance(r, str) and r and draw(st.booleans()):
+            ni[draw(st.integers(0, len(ni) - 1))].find('itemID').text = r      # new version, same ID
+        body = B.ea_item_replace(ro_id, s, r if r is not None else '', ni)
     elif kind == 'EAStoryDelete':
         body = B.ea_story_delete(ro_id, draw(id_list(sids, UNKNOWN_S, faults, degenerate=degenerate)))
     elif kind == 'EAItemDelete':
@@ -614,12 +630,12 @@ def ordered_tuples(ids, maxlen):
         yield from itertools.permutations(ids, k)
 
 
-def enum_story_messages(sids, ro_id='RO1', max_sources=3, mid=2000):
+def enum_story_messages(sids, ro_id='RO1', max_sources=3, mid=2000, unknown='ZZ-unknown'):
     """Every story-level message shape x every reference assignment over `sids`
     (plus blank / absent / unknown targets).  Yields (label, msg_xml)."""
     def env(body):
         return B.tostring(B.envelope(body, mid))
-    targets = list(sids) + ['', None, 'ZZ-unknown']
+    targets = list(sids) + ['', None, unknown]
     new1 = [plain_story('N0', ['J0'])]
     new2 = [plain_story('N0', ['J0']), plain_story('N1')]
     yield 'roStoryAppend', env(B.story_append(ro_id, new1))
@@ -633,6 +649,9 @@ def enum_story_messages(sids, ro_id='RO1', max_sources=3, mid=2000):
         if t:
             # same-ID replacement / re-send
             yield 'roStoryReplace', env(B.story_replace(ro_id, t, [plain_story(t, ['J1'])]))
+            yield 'EAStoryReplace', env(B.ea_story_replace(ro_id, t, [plain_story(t, ['J1'])]))
+            yield 'roStoryReplace', env(B.story_replace(ro_id, t, [plain_story('N0'), plain_story(t, ['J1'])]))
+            yield 'EAStoryReplace', env(B.ea_story_replace(ro_id, t, [plain_story('N0'), plain_story(t, ['J1'])]))
         body = [P('para'), B.mk_item('J0', slug='x'), P('(note)')]
         body[1].tag = 'storyItem'
         yield 'roStorySend', env(B.story_send(ro_id, t, head=[T('storySlug', 'resent')], body=body))
@@ -647,13 +666,13 @@ def enum_story_messages(sids, ro_id='RO1', max_sources=3, mid=2000):
                 yield 'EAStoryInsert', env(B.ea_story_insert(ro_id, t, pl))
     # moves
     yield 'roStoryMove', env(B.story_move(ro_id, []))
-    for s in list(sids) + ['ZZ-unknown', '']:
+    for s in list(sids) + [unknown, '']:
         yield 'roStoryMove', env(B.story_move(ro_id, [s]))
         for t in targets:
             if t is None:
                 continue
             yield 'roStoryMove', env(B.story_move(ro_id, [s, t]))
-    pool = list(sids) + ['ZZ-unknown']
+    pool = list(sids) + [unknown]
     for srcs in ordered_tuples(pool, max_sources):
         yield 'roStoryDelete', env(B.story_delete(ro_id, list(srcs)))
         yield 'EAStoryDelete', env(B.ea_story_delete(ro_id, list(srcs)))
@@ -668,14 +687,14 @@ def enum_story_messages(sids, ro_id='RO1', max_sources=3, mid=2000):
 
 
 def enum_item_messages(sid, iids, ro_id='RO1', max_sources=3, mid=2000,
-                       story_refs=None):
+                       story_refs=None, unknown='ZZ-unknown-item'):
     """Every item-level message shape x every reference assignment inside story
     `sid` with items `iids`."""
     def env(body):
         return B.tostring(B.envelope(body, mid))
     new1 = [B.mk_item('J0', slug='new 0')]
     new2 = [B.mk_item('J0', slug='new 0'), B.mk_item('J1', slug='new 1')]
-    refs = list(iids) + ['', 'ZZ-unknown-item']
+    refs = list(iids) + ['', unknown]
     for s in (story_refs if story_refs is not None else [sid]):
         for r in refs:
             for pl in (new1, new2):
@@ -683,8 +702,12 @@ def enum_item_messages(sid, iids, ro_id='RO1', max_sources=3, mid=2000,
                 yield 'EAItemInsert', env(B.ea_item_insert(ro_id, s, r, pl))
                 yield 'roItemReplace', env(B.item_replace(ro_id, s, r, pl))
                 yield 'EAItemReplace', env(B.ea_item_replace(ro_id, s, r, pl))
+            if r and r in iids:
+                same = [B.mk_item('J0', slug='new 0'), B.mk_item(r, slug='new version')]
+                yield 'roItemReplace', env(B.item_replace(ro_id, s, r, same))
+                yield 'EAItemReplace', env(B.ea_item_replace(ro_id, s, r, same))
         yield 'roItemInsert', env(B.item_insert(ro_id, s, None, new2))
-        pool = list(iids) + ['ZZ-unknown-item']
+        pool = list(iids) + [unknown]
         yield 'roItemMoveMultiple', env(B.item_move_multiple(ro_id, s, ['']))
         for srcs in ordered_tuples(pool, max_sources):
             yield 'roItemDelete', env(B.item_delete(ro_id, s, list(srcs)))
